@@ -615,10 +615,17 @@ func c12OrderFacts(sk []string) []c12Fact {
 	// 4. blocking operations are outside the table sections
 	bl, bd := idx(sk, is("M.Lock")), idx(sk, is("body"))
 	inside := idx(sk, func(t string) bool {
-		return (isSec(t) && (strings.Contains(t, "M.Lock") || strings.Contains(t, "body") || strings.Contains(t, "M.Unlock"))) ||
-			t == "T.Lock-without-Unlock" || t == "T.Unlock-without-Lock"
+		return isSec(t) && (strings.Contains(t, "M.Lock") || strings.Contains(t, "body") || strings.Contains(t, "M.Unlock"))
 	})
+	malformed := idx(sk, func(t string) bool { return t == "T.Lock-without-Unlock" || t == "T.Unlock-without-Lock" })
 	switch {
+	case malformed >= 0:
+		// the sections are not straight-line code (each branch with its own Unlock …): this
+		// source-order reading of the skeleton cannot tell
+		for i := range out {
+			out[i].kind = "unknown"
+		}
+		out = append(out, c12Fact{"M.Lock, M.Unlock and the body outside MutexesMutex sections", "unknown"})
 	case inside >= 0:
 		out = append(out, c12Fact{"M.Lock, M.Unlock and the body outside MutexesMutex sections", "false"})
 	default:
@@ -958,10 +965,36 @@ func c12Tool(args []string) int {
 	}
 	sb.WriteString("]\n\n")
 	sb.WriteString("/-- the value the pool's constructor gives the id counter (none = cannot tell) -/\n")
-	if v := c12CounterInit(); v >= 0 {
-		sb.WriteString(fmt.Sprintf("def idCounterInit : Option Nat := some %d\n\n", v))
+	initV := c12CounterInit()
+	if initV >= 0 {
+		sb.WriteString(fmt.Sprintf("def idCounterInit : Option Nat := some %d\n\n", initV))
 	} else {
 		sb.WriteString("def idCounterInit : Option Nat := none\n\n")
+	}
+	// the first id HANDED OUT: the initial value if NewThreadID reads before it increments, one
+	// more if it increments first (whether the counter holds the next or the last id is a
+	// matter of representation)
+	first := -1
+	ri, ii := -1, -1
+	for i, t := range ids {
+		if t == "read" && ri < 0 {
+			ri = i
+		}
+		if t == "inc" && ii < 0 {
+			ii = i
+		}
+	}
+	if initV >= 0 && ri >= 0 && ii >= 0 {
+		first = initV
+		if ii < ri {
+			first = initV + 1
+		}
+	}
+	sb.WriteString("/-- the first thread id NewThreadID hands out (none = cannot tell) -/\n")
+	if first >= 0 {
+		sb.WriteString(fmt.Sprintf("def idFirst : Option Nat := some %d\n\n", first))
+	} else {
+		sb.WriteString("def idFirst : Option Nat := none\n\n")
 	}
 	lt, err := c12LiteralTids()
 	if err != nil {
